@@ -52,6 +52,22 @@ Theorem C40_flat_bindings_inside_cpuset : forall allowed sing nb, allowed <> [] 
 Proof. exact flat_bindings_inside_cpuset. Qed.
 Print Assumptions C40_flat_bindings_inside_cpuset.
 
+(* the oversubscription fallback of parsec_select_vpmap_thread_core: whatever the candidates, the cores
+   already taken and the fallback remembered so far, the result is an allowed core or "not bound" *)
+Theorem C40_select_core_allowed_or_unbound : forall allowed used cands first,
+  Forall (fun w => 0 <= w) cands -> (first = -1 \/ In first allowed) ->
+  select_core allowed used cands first = -1 \/ In (select_core allowed used cands first) allowed.
+Proof. exact select_core_allowed_or_unbound. Qed.
+Print Assumptions C40_select_core_allowed_or_unbound.
+
+(* ... hence every flat map, oversubscribed (runtime_num_cores above the allowed cores) or not, on every
+   cpuset and in every singlify mode, leaves each thread on an allowed core or unbound *)
+Theorem C40_flat_bindings_never_escape : forall allowed sing nb numcores cores, 1 <= Z.of_nat (length allowed) ->
+  user_flat_bindings_nc allowed sing nb numcores = Some cores ->
+  Forall (fun c => c = -1 \/ In c allowed) cores.
+Proof. exact flat_bindings_never_escape. Qed.
+Print Assumptions C40_flat_bindings_never_escape.
+
 (* which strings give the flat map: NULL, "flat..." (after an optional
    "display:"), and every string that is none of the documented syntaxes
    (neither flat, hwloc, file: nor a scannable rr:n:p:c) -- malformed
@@ -180,6 +196,7 @@ Example C40_example :
   parse_binding 16 3 (list_ascii_of_string "1;7;2") = BOk [bound 1; bound 3; bound 5] /\
   hwloc_map [4; 4] 8 0 4 = Map 1 4 [[mkt 1 0 (Fin [0]); mkt 1 0 (Fin [1]); mkt 1 0 (Fin [2]); mkt 1 0 (Fin [3])]] /\
   hwloc_map [2; 2; 2] 6 0 3 = Map 2 4 [[mkt 1 0 (Fin [0]); mkt 1 0 (Fin [1])]; [mkt 1 0 (Fin [2])]] /\
+  user_flat_bindings_nc [12; 13; 14; 15] 1 6 6 = Some [12; 12; 12; 12; 12; 12] /\
   user_flat_bindings [2; 3; 5] 0 0 = Some [2; 3; 5] /\ user_flat_bindings [0; 1; 2; 3; 4; 6; 7] 0 2 = Some [0; 3] /\
   user_flat_bindings [0; 1; 2; 3; 4; 6; 7] 1 7 = Some [0; 1; 2; 3; 4; 6; 7].
 Proof. vm_compute. repeat split. Qed.
